@@ -325,6 +325,7 @@ func getHashNumberRule(P *Program, R *Report) {
 	// loop: k phi(0, k+256), condition k < bitlen
 	l := innermostLoopOf(hc.Block())
 	okLoop, okShift, okAdd, okCounter := false, false, false, false
+	var shiftedSite ssa.Value // the object that holds the shifted limb
 	if l != nil {
 		for _, ins := range l.Header.Instrs {
 			if phi, ok := ins.(*ssa.Phi); ok && len(phi.Edges) == 2 {
@@ -352,8 +353,10 @@ func getHashNumberRule(P *Program, R *Report) {
 						if !ok || !l.Body[c.Block()] {
 							return
 						}
-						if bigMethod(c) == "Lsh" && siteOf(c.Call.Args[0]) == ssa.Value(hc) && siteOf(c.Call.Args[1]) == ssa.Value(hc) && stripConv(c.Call.Args[2]) == ssa.Value(phi) {
+						// cur.Lsh(cur, k) in place, or shifted := new(big.Int).Lsh(cur, k)
+						if bigMethod(c) == "Lsh" && siteOf(c.Call.Args[1]) == ssa.Value(hc) && stripConv(c.Call.Args[2]) == ssa.Value(phi) {
 							okShift = true
+							shiftedSite = siteOf(c.Call.Args[0])
 						}
 					})
 				}
@@ -365,7 +368,7 @@ func getHashNumberRule(P *Program, R *Report) {
 				return
 			}
 			// res.Add(res, cur)
-			if siteOf(c.Call.Args[0]) == siteOf(c.Call.Args[1]) && siteOf(c.Call.Args[2]) == ssa.Value(hc) {
+			if siteOf(c.Call.Args[0]) == siteOf(c.Call.Args[1]) && shiftedSite != nil && siteOf(c.Call.Args[2]) == shiftedSite {
 				for _, r := range returnsOf(fn) {
 					if siteOf(r.Results[0]) == siteOf(c.Call.Args[0]) {
 						okAdd = true
